@@ -1,4 +1,5 @@
 import HdVerif.Proofs.Volume
+import HdVerif.Proofs.VolumeOrient
 /-! # C08  Volume operations never move a voxel in physical space
 
 Property theorems only (helper lemmas: `Proofs/Volume.lean`; model: `Model/Volume.lean`).
@@ -169,6 +170,22 @@ theorem ensureHandedness_spec (g : Geom) (hd : String) (fa : Option Int) (sa : O
     (h : ensureHandednessG AxMap.size g hd fa sa = .ok r) : r.1.leftHanded = wantLeft :=
   VolLemmas.ensureHandedness_spec AxMap.size hp ho hw h
 
+/-- **to_patient_orientation reaches the requested orientation** — for every geometry whose axes point along
+frame-of-reference axes (`OnAxis`: any positive spacing; any position and shape), each of the 48 current and each
+of the 48 requested orientations: `get_closest_patient_orientation` reports the current one, the request is
+accepted, and the result reports the requested one.  (That no voxel moves is `op_preserves_position`, which holds
+for oblique geometries too.) -/
+theorem toPatientOrientation_spec (g : Geom) (cur des : Orient) (hc : cur ∈ allOrients) (hd : des ∈ allOrients)
+    (hp : g.Pos) (h0 : OnAxis g.c0 cur.1) (h1 : OnAxis g.c1 cur.2.1) (h2 : OnAxis g.c2 cur.2.2) :
+    closest g = cur ∧
+    ∃ r, (SOp.toOrientation (orientChars des)).applyGeom .patient g = .ok r ∧ closest r.1 = des :=
+  toPatientOrientation_general AxMap.size hc hd hp h0 h1 h2
+
+/-- Outside the patient coordinate system the request is refused (RuntimeError). -/
+theorem toPatientOrientation_refused_on_slide (g : Geom) (o : List Char) :
+    (SOp.toOrientation o).applyGeom .slide g = .error .runtime := by
+  simp [SOp.applyGeom, SOp.applyG, toOrientationG, bind, Except.bind, throw, throwThe, MonadExceptOf.throw]
+
 /-! ## new voxels are padding -/
 
 /-- `pad` on a volume: retained voxels (provenance defined) were treated above; here the new ones.
@@ -254,5 +271,10 @@ example : ((SOp.getitem [.slice (some 2) none (some (-1)), .int (-1), .slice non
 example : ((SOp.padOrCropTo [2, 6, 5] ⟨"EDGE", 0, false⟩).applyGeom .patient g0).toBool = true := by decide +kernel
 example : ((SOp.toOrientation ['F', 'P', 'L']).applyGeom .patient g0).toBool = true := by decide +kernel
 example : ((SOp.ensureHandedness "RIGHT_HANDED" (some 1) none).applyGeom .patient g0).toBool = true := by decide +kernel
+
+/-- `g0` is axis-aligned with axes pointing P, R, H: the hypotheses of `toPatientOrientation_spec` are satisfiable -/
+example : (Dir.P, Dir.R, Dir.H) ∈ allOrients ∧ OnAxis g0.c0 .P ∧ OnAxis g0.c1 .R ∧ OnAxis g0.c2 .H := by
+  refine ⟨by decide, ⟨3 / 2, by norm_num, by simp [g0, unitVec, V3.smul]⟩, ⟨1 / 2, by norm_num, by simp [g0, unitVec, V3.smul]; norm_num⟩,
+    ⟨2, by norm_num, by simp [g0, unitVec, V3.smul]⟩⟩
 
 end HdVerif.C08
